@@ -68,6 +68,12 @@ add("C20", "jaxpr2smt",
     "floats as reals; transcendental activations uninterpreted (agreement must be structural); normal sampler = uninterpreted function of the key; state-dependent std outside the property",
     "DESIGN.md §6 C20")
 
+add("C17", "jaxpr2smt",
+    "bounded symbolic execution of the jaxprs of the live Transform.apply/inv compositions over z3 reals on symbolic parameter trees; z3 decides round trips, end points, strict monotonicity and composition order (closed forms for concrete members, uninterpreted functions for opaque members); counterexamples replayed on the real functions",
+    "For all parameter values and bounds with min<max on the enumerated tree shapes (nested, with None leaves): Denormalize inv/apply are mutual inverses, map -1/+1 to min/max and are strictly increasing; Exponential is the exp/log pair; Identity is the identity; Chain applies first-to-last and inverts last-to-first; Shared shares/restores; Extend.apply fills exactly the missing leaves. Extend.inv is not part of the statement and not claimed.",
+    "floats as reals (the property allows rounding); log(exp x)=x axiom where named; tree shapes enumerated",
+    "DESIGN.md §6 C17")
+
 def main():
     checks = []
     for pid in sorted(CHECKS):
